@@ -52,12 +52,14 @@ class Builder:
             self.ops.append(['downto', str(p), '1' if downto else '0'])
         return p, list(range(pins, pins + npins))
 
-    def cable(self, d, name, nwires, lower=None):
+    def cable(self, d, name, nwires, lower=None, downto=None):
         c = self._alloc('cable')
         wires = self._alloc('wire', nwires)
         self.ops.append(['create', 'cables', str(d), tok_of_s(name) if name is not None else '~', '0', str(nwires), '~'])
         if lower is not None:
             self.ops.append(['lower', str(c), str(lower)])
+        if downto is not None:
+            self.ops.append(['downto', str(c), '1' if downto else '0'])
         return c, list(range(wires, wires + nwires))
 
     def child(self, d, name, ref):
@@ -111,7 +113,9 @@ def build(rng, depth=3, max_leaf=3, max_mid_per_layer=2, max_children=4, named=T
         for j in range(rng.randint(1, 3)):
             width = rng.choice([1, 1, 1, 2, 3]) if bus else 1
             lower = rng.choice([None, None, 0, 1, 4]) if width > 1 else None
-            p, pins = b.port(d, nm('p', j), width, direction=rng.choice([1, 2, 2, 3]), lower=lower)
+            # ascending buses ([2:5] rather than [5:2]) now and then
+            p, pins = b.port(d, nm('p', j), width, direction=rng.choice([1, 2, 2, 3]), lower=lower,
+                             downto=(False if (width > 1 and rng.random() < 0.25) else None))
             ports.append((p, pins))
         info['ports'][d] = ports
         info['children'][d] = []
@@ -148,7 +152,8 @@ def build(rng, depth=3, max_leaf=3, max_mid_per_layer=2, max_children=4, named=T
             ncab = rng.randint(0 if rng.random() < 0.1 else 1, 4)
             for j in range(ncab):
                 width = rng.choice([1, 1, 2]) if bus else 1
-                c, wires = b.cable(d, (nm('c', j) if unnamed_cables else (nm('c', j) or ('c%d' % j))), width, lower=rng.choice([None, None, 2]) if width > 1 else None)
+                c, wires = b.cable(d, (nm('c', j) if unnamed_cables else (nm('c', j) or ('c%d' % j))), width, lower=rng.choice([None, None, 2]) if width > 1 else None,
+                                    downto=(False if (width > 1 and rng.random() < 0.25) else None))
                 cables.append((c, wires))
                 for w in wires:
                     r = rng.random()
